@@ -24,7 +24,9 @@ class U(dsl.Schema):
 
 
 STATEMENTS = ['proj', 'filt:1', 'filt:5', 'ord', 'join', 'agg', 'filt2:1', 'filt2:5', 'ref:1', 'ref:5', 'selfjoin',
-              'filt:-1', 'filt:-2']  # hash(-1) == hash(-2) in CPython: literals that differ while their hashes do not
+              'filt:-1', 'filt:-2',  # hash(-1) == hash(-2) in CPython: literals that differ while their hashes do not
+              'union', 'diff', 'setnest']  # set operations; the nested one only on engines that take nested operands
+NESTED_SETS_UNSUPPORTED = ('sql',)  # SQLite refuses parenthesised compound operands (an engine limit, not forml's)
 P = T.reference('p')  # an explicitly named reference shared by several statements
 
 
@@ -47,6 +49,13 @@ def statement(sid: str) -> dsl.Statement:
         return ref.select(ref.a, ref.b).where(ref.b > int(sid[4:]))
     if sid == 'selfjoin':
         return T.inner_join(P, T.a == P.a).select(T.a, P.b)
+    if sid in ('union', 'diff', 'setnest'):
+        every, some, few = T.select(T.a), T.select(T.a).where(T.b > 2), T.select(T.a).where(T.b > 5)
+        if sid == 'union':
+            return some.union(few)
+        if sid == 'diff':
+            return every.difference(some)
+        return every.difference(some.difference(few))  # A - (B - C): NOT the same as (A - B) - C
     raise KeyError(sid)
 
 
@@ -122,6 +131,11 @@ def evaluate(sid: str, content: dict) -> list:
         out = [[a, b] for a, b, c in trows if b > k]
     elif sid == 'selfjoin':
         out = [[a, b2] for a, b, c in trows for a2, b2, c2 in trows if a == a2]
+    elif sid in ('union', 'diff', 'setnest'):
+        every = {a for a, b, c in trows}
+        some = {a for a, b, c in trows if b > 2}
+        few = {a for a, b, c in trows if b > 5}
+        out = [[a] for a in (some | few if sid == 'union' else every - some if sid == 'diff' else every - (some - few))]
     elif sid == 'agg':
         counts: dict = {}
         for a, b, c in trows:
